@@ -528,12 +528,19 @@ def check(repo: Repo, run: Run) -> None:
     fn, rec, ev, st, tid, eid, win = common(all_m)
     loops = append_all_loops(rec, st, tid, win, ev)
     okl = len(loops) == 1 and not loops[0][2]
-    run.ob("K5", MOD, f"TracesParser.{all_m}", "append to every open window of the thread", okl,
-           "a NONE/ALL event is not appended (unconditionally, once) to every open window of its thread", line=fn.lineno)
-    reach_ob("K5", all_m, rec, loops, st, tid, eid, False, "a NONE/ALL record", fn.lineno)
     others = [e for e in rec.effects if not (loops and e is loops[0][1])]
-    run.ob("K5", MOD, f"TracesParser.{all_m}", "no other state change", not others,
-           f"a NONE/ALL event also performs {[(e.kind, e.key) for e in others][:3]}", nontrivial=False)
+    own_slots = [e for e in others if e.kind == "attr-store" and (e.path or e.base) == SELF]
+    if own_slots and all(e in own_slots or (e.kind == "mut-call" and e.key in ("setdefault", "append")) for e in others):
+        # the action remembers something of its own from one record to the next (a look-up cache): what it appends to is then
+        # not read off this method alone
+        run.floor_failures.append(f"C04/K5: {all_m} keeps state of its own in self.{own_slots[0].key} (line {own_slots[0].lineno}): "
+                                  f"which windows a NONE/ALL record is appended to is not decided")
+    else:
+        run.ob("K5", MOD, f"TracesParser.{all_m}", "append to every open window of the thread", okl,
+               "a NONE/ALL event is not appended (unconditionally, once) to every open window of its thread", line=fn.lineno)
+        reach_ob("K5", all_m, rec, loops, st, tid, eid, False, "a NONE/ALL record", fn.lineno)
+        run.ob("K5", MOD, f"TracesParser.{all_m}", "no other state change", not others,
+               f"a NONE/ALL event also performs {[(e.kind, e.key) for e in others][:3]}", nontrivial=False)
     pel = M["parse_event_list"]
     want = interp.run(tp.module, pel, {"self": SELF, pel.args.args[1].arg: T("list", ((ev,),))}, self_cls=tp).return_term()
     got = rec.return_term()
